@@ -23,7 +23,7 @@ ASSUMPTIONS = [
 
 
 def budget(tier):
-    return 3000 if tier == "quick" else 150000
+    return 25000 if tier == "quick" else 400000
 
 
 def strategy(tier):
